@@ -31,7 +31,7 @@ if [ $ok = 1 ] && [ -e /verif/checks/$(echo $P | tr A-Z a-z).py ]; then
   echo "$P-$X: check rc=$rc $line"
 fi
 if [ $ok = 1 ]; then
-  mkdir -p $OUT; cp -r $SRC/. $OUT/
+  mkdir -p $OUT; cp $OUT/meta.json /tmp/sv/$P-$X.oldmeta.json 2>/dev/null; cp -r $SRC/. $OUT/
   python3 - <<PY
 import json
 p='$OUT/meta.json'
@@ -40,8 +40,14 @@ except Exception: m={}
 m['confirmed_by_integrator']={'demo_on_clean_tree_exit':$d0,'patch_applies':True,'builds':True,'ctest_21_pass':True,'demo_on_patched_tree_exit':$d1,
   'check_quick_result':'$caught','check_line':'''$line'''.strip(),
   'ran':'tools_seed_verify.sh $P $X: scratch worktree /tmp/sv/$P-$X, cmake+ninja build, ctest -j8, demo.sh before/after, VERIF_REPO=<worktree> ./check $P --tier quick'}
+try: old=json.load(open('/tmp/sv/$P-$X.oldmeta.json'))
+except Exception: old={}
+if old.get('history'): m['history']=old['history']
+elif old.get('confirmed_by_integrator',{}).get('check_quick_result','').startswith('MISSED') and '$caught'=='caught':
+    m['history']='missed by the check as it stood when this change was delivered; caught after the check was strengthened (mechanism relayed to the builder, patch and demonstration withheld), re-verified by this script'
 json.dump(m,open(p,'w'),indent=1)
 PY
+rm -f /tmp/sv/$P-$X.oldmeta.json
 fi
 git -C /repo worktree remove --force $WT >/dev/null 2>&1; rm -rf $WT $CACHE
 # a check run with VERIF_REPO leaves Generated/*.lean of the mutated tree behind: regenerate from /repo
